@@ -394,6 +394,7 @@ def process(cx, schemas, hists):
         return "hist:%d-validations%s" % (sum(1 for f in reply[1:] if f[0] == "T"), "+error" if any(f[0] == "E" for f in reply[1:]) else "")
     ri, rm = vc.differential(cx, HARNESS, schemas, lines, kind)
     rl = vc.run_impl(cx, HARNESS, schemas, lawl)
+    law_model(cx, schemas, hists, rl)
     # the RFC defaults of every validated tree (model only)
     specl = []
     for h in hists:
@@ -408,6 +409,55 @@ def process(cx, schemas, hists):
     spec = cx.run_model(vc.heads(schemas) + specl) if specl else {}
     for h in hists:
         eval_hist(cx, h, ri.get("h%d" % h.k, ["err", "NoReply"]), rl.get("l%d" % h.k, ["err", "NoReply"]), spec)
+
+
+def apply_fixes(cx):
+    """the repairs of lyd_diff_apply_all that are in the tree under test (the model of component `diff` has a switch for each)"""
+    return "fx=" + (",".join(sorted(f[1:] for f in ("F120", "F126", "F128") if cx.findings.get(f, {}).get("status") == "fixed")) or "-")
+
+
+def law_model(cx, schemas, hists, rl):
+    """(K) the laws themselves are predicted by the model: `Valid.runLaw` composes the model of the validation, of its change set
+    (`judge`: lyd_val_diff_add + lyd_diff_merge_all) and of lyd_diff_apply_all (component `diff`) on the INPUT tree of every
+    validation.  Compared with what libyang did (`histlaw`): idem / same / apply / exact per validation.  `sh<i>` = the hypotheses of
+    Props/C07 `valdiff_exact_partial` on that input (counted)."""
+    fx = apply_fixes(cx)
+    ml = []
+    for h in hists:
+        d, x = tg.hx(h.s.dsl()), tg.hx(h.s.xdsl())
+        ml.append("m%d %s histlaw %s %s %d %s %s" % (h.k, COMP, d, x, h.opts, fx, " ".join(h.steps)))
+    rm = cx.run_model(vc.heads(schemas) + ml) if ml else {}
+    for h in hists:
+        a, b = rl.get("l%d" % h.k, ["err", "NoReply"]), rm.get("m%d" % h.k, ["err", "NoReply"])
+        if a[0] != "ok" or a[:2] in (["err", "Crash"], ["err", "Timeout"]):
+            continue
+        if b[0] != "ok":
+            cx.disagree(COMP, ml[0][:200] + " ...", a[:6], b[:6])
+            continue
+        fa, fb = fields(a), fields(b)
+        bad = []
+        nv = sum(1 for k in fb if k.startswith("apply"))
+        for vi in range(nv):
+            cx.count(("lawmodel", h.s.name, tuple(h.steps), h.opts, vi), True, "lawmodel:validation")
+            sh = fb.get("sh%d" % vi, "------")
+            keyless, twin, incase, lost, excl, exact = (c == "1" for c in sh[:6])
+            cx.dist["valdiff-hyp:" + ("excluded(" + "+".join(n for n, c in (("keyless-change", keyless), ("np-twin", twin), ("np-in-case", incase)) if c) + ")" if excl else "satisfied")] += 1
+            cx.dist["valdiff-model:" + ("exact" if exact else "NOT-exact") + ("/excluded" if excl else "/hyp")] += 1
+            if not excl and not exact:
+                # the statement of valdiff_exact_partial fails in the MODEL on an input inside its hypotheses
+                cx.fail(COMP, "model: apply input (validateDiff input) differs from validate input on an input that satisfies the hypotheses of valdiff_exact_partial",
+                        payload(h, "valdiff-model", vi, more=["model-law"]))
+            for key in ("idem", "same", "apply", "exact"):
+                x, y = fa.get("%s%d" % (key, vi)), fb.get("%s%d" % (key, vi))
+                if key == "idem" and x is not None and x not in ("empty", "nonempty"):
+                    x = "E"
+                if y == "dup" or (key == "exact" and fa.get("apply%d" % vi) != "Success"):
+                    cx.dist["lawmodel:not-compared(%s)" % (y if y == "dup" else "apply-failed")] += 1
+                    continue
+                if x != y:
+                    bad.append("%s%d impl=%s model=%s" % (key, vi, x, y))
+        if bad:
+            cx.disagree(COMP, ("l%d %s histlaw %s %d %s" % (h.k, COMP, tg.hx(h.s.dsl()), h.opts, " ".join(h.steps)))[:6000], bad[:8], [x for x in b if x.startswith("sh")][:8])
 
 
 def payload(h, law, vi, **kw):
